@@ -246,8 +246,16 @@ func renderGomod(recs []crec, l lay) rendered {
 		out = append(out, "", "go 1.21.0", "", "toolchain go1.22.1")
 		extraWant = append(extraWant, [2]string{"stdlib", "1.22.1"})
 	}
+	// With extra >= 2 every other record is required under an alias module and brought to its real
+	// name and version by a replace directive (versioned or version-less), each followed by a versioned
+	// replace of the same module that matches no requirement (a legal no-op).
+	aliased := func(k int) bool { return l.Extra >= 2 && k%2 == 0 }
+	alias := func(k int) string { return fmt.Sprintf("example.com/orig/m%d", k) }
 	line := func(r crec, k int, block bool) string {
 		s := r.Name + " " + r.Raw
+		if aliased(k) {
+			s = alias(k) + " v0.0.1"
+		}
 		if block {
 			s = "\t" + s
 		} else {
@@ -309,6 +317,17 @@ func renderGomod(recs []crec, l lay) rendered {
 			"replace example.com/not-required-either v1.0.0 => ../local/fork",
 			"",
 			"retract v0.9.0 // published by mistake")
+		for k, r := range recs {
+			if !aliased(k) {
+				continue
+			}
+			if k%4 == 0 {
+				out = append(out, "", "replace "+alias(k)+" v0.0.1 => "+r.Name+" "+r.Raw)
+			} else {
+				out = append(out, "", "replace "+alias(k)+" => "+r.Name+" "+r.Raw)
+			}
+			out = append(out, "", fmt.Sprintf("replace %s v0.0.2 => example.com/other/m%d v9.9.9", alias(k), k))
+		}
 	}
 	if l.Comments == "line" {
 		out = append(out, "// trailing comment")
